@@ -161,6 +161,22 @@ def run_chain(n, cfg, out):
             d.addBoth(nxt, k)
         d.addBoth(body, k)
     ops = [("fire", k) for k in order_of([k for k in range(n) if not prefired[k]], cfg["fire_order"], cfg["shuffle_seed"])]
+    lm = cfg.get("late_mod", 0)
+    if lm:
+        # a pass-through callback added to d_{k} AFTER d_{k-1} has (possibly) started waiting on it: it lands behind the
+        # continuation entry, sees None and changes no result - but the chain must still be unwound iteratively
+        def late(res, k):
+            x = depth() - base
+            if x > out["maxdepth"]:
+                out["maxdepth"] = x
+            out["late_ran"] = out.get("late_ran", 0) + 1
+            return res
+        withlate = []
+        for op, k in ops:
+            withlate.append((op, k))
+            if k + 1 < n and (k + 1) % lm == 0:
+                withlate.append(("late", k + 1))
+        ops = withlate
     unp = [("unpause", k) for k in order_of([k for k in range(n) if paused[k]], cfg["unpause_order"], cfg["shuffle_seed"] + 1)]
     if cfg["merge"] == "after":
         ops += unp
@@ -170,6 +186,8 @@ def run_chain(n, cfg, out):
     for op, k in ops:
         if op == "fire":
             fire(ds[k], k)
+        elif op == "late":
+            ds[k].addBoth(late, k)
         else:
             ds[k].unpause()
     out["calls_wrong"] = [k for k in range(n) if seen[k] != 1][:5]
@@ -331,7 +349,8 @@ def run(sim):
                    unpause_order=sim.draw_choice(["asc", "desc", "perm"], "unpause_order"),
                    merge=sim.draw_choice(["after", "shuffled"], "merge"),
                    raise_mod=sim.draw_choice([0, 7, 2], "raise_mod"),
-                   recover_mod=sim.draw_choice([3, 1, 0], "recover_mod"))
+                   recover_mod=sim.draw_choice([3, 1, 0], "recover_mod"),
+                   late_mod=sim.draw_choice([0, 1, 3], "late_mod"))
     else:
         cfg.update(nest_mod=sim.draw_choice([0, 4, 9], "nest_mod"),
                    nest_kind=sim.draw_choice(["gen", "coro-deferred", "coro"], "nest_kind"),
